@@ -234,6 +234,21 @@ def modules(rng):
     add('rsimvq', lambda lay: ResidualSimVQ(dim=3, num_quantizers=2, codebook_size=6, channel_first=(lay != 'seq')), 3, ('seq', 'cfirst'))
     add('latent', lambda lay: LatentQuantize(levels=[3, 4], dim=2), 2, ('cfirst', 'image'))
     add('rpq', lambda lay: RandomProjectionQuantizer(dim=4, codebook_size=5, codebook_dim=2, num_codebooks=2), 4, ('seq',))
+    # OPTIONAL configurations: combinations the library currently rejects (affine_param raises on every forward, cosine + learnable is refused at
+    # construction).  They are tried on every run and skipped while they are rejected - if a change makes one of them run, it is checked like the rest
+    M_opt = [('vq-affine', lambda lay: VectorQuantize(dim=3, codebook_size=6, affine_param=True, decay=0.5), 3, ('seq',), True),
+             ('vq-affine-sync', lambda lay: VectorQuantize(dim=3, codebook_size=6, affine_param=True, sync_affine_param=True, decay=0.5), 3, ('seq',), True),
+             ('vq-cosine-learnable', lambda lay: VectorQuantize(dim=3, codebook_size=6, use_cosine_sim=True, learnable_codebook=True, ema_update=False), 3, ('seq',), True)]
+    for name, mk, dim, layouts, frozen in M_opt:
+        try:
+            probe = mk('seq')
+            probe.train()
+            probe(torch.randn(2, 4, dim))
+            probe.eval()
+            probe(torch.randn(2, 4, dim))
+        except Exception:
+            continue
+        add(name, mk, dim, layouts, frozen)
     return M
 
 
